@@ -339,6 +339,8 @@ func (so *stateObject) deepCopy(db *StateDB) *stateObject {
 	stateObject.pendingStorage = so.pendingStorage.Copy()
 	stateObject.suicided = so.suicided
 	stateObject.dirtyCode = so.dirtyCode
+	stateObject.delegations = so.delegations
+	stateObject.dirtyDlgs = so.dirtyDlgs
 	stateObject.deleted = so.deleted
 	return stateObject
 }
